@@ -556,15 +556,14 @@ Proof.
       with (C + frag_bytes_sub m + sumZ (map frag_bytes_sub t)) by lia. exact F2.
 Qed.
 
-(* the decoder part: outside the FragmentNumberSet class of C07 it does not panic *)
+(* the decoder part is C07's: here it is only assumed not to panic on this byte string *)
 Theorem handle_datagram_ok : forall C st bytes,
   InvC C st -> C + frag_bytes (subs_of bytes) <= FRAG_CAP ->
-  C07_known_fnset bytes = false -> C06_known_dgram bytes = false ->
+  is_panic (parse_message bytes) = false -> C06_known_dgram bytes = false ->
   exists st' o, handle_datagram st bytes = Ok (st', o) /\ InvC (C + frag_bytes (subs_of bytes)) st' /\
                 length (ps_readers st') = length (ps_readers st).
 Proof.
-  intros C st bytes HI HC H7 H6. unfold handle_datagram, C06_known_dgram, subs_of in *.
-  pose proof (parse_message_total bytes H7) as Hp.
+  intros C st bytes HI HC Hp H6. unfold handle_datagram, C06_known_dgram, subs_of in *.
   destruct (parse_message bytes) as [[h l]|e|x]; [|do 2 eexists; split; [reflexivity|]|discriminate].
   - apply handle_subs_ok; auto.
   - unfold frag_bytes; cbn. rewrite Z.add_0_r. auto.
